@@ -1,6 +1,5 @@
 //! C05 - schemes and purposes are domain-separated.
 
-use super::util::*;
 use crate::gen::{self, Content};
 use crate::refimpl::{self, Scheme, RC, SCHEMES};
 use crate::suite::*;
